@@ -101,11 +101,13 @@ pub struct ScheduledSink {
 	pub vectored_calls: usize,
 	pub plain_calls: usize,
 	pub flushes: usize,
+	/// one entry per write call: (vectored?, bytes offered, accepted bytes or -1 interrupted / -2 hard error)
+	pub log: Vec<(bool, usize, i64)>,
 }
 
 impl ScheduledSink {
 	pub fn new(sched: Vec<SinkStep>, repeat_last: bool) -> Self {
-		ScheduledSink { got: Vec::new(), sched, calls: 0, repeat_last, vectored_calls: 0, plain_calls: 0, flushes: 0 }
+		ScheduledSink { got: Vec::new(), sched, calls: 0, repeat_last, vectored_calls: 0, plain_calls: 0, flushes: 0, log: Vec::new() }
 	}
 	fn step(&mut self) -> SinkStep {
 		let i = self.calls;
@@ -126,7 +128,7 @@ impl Write for ScheduledSink {
 		if buf.is_empty() {
 			return Ok(0);
 		}
-		match self.step() {
+		let r = match self.step() {
 			SinkStep::Accept(k) => {
 				let n = k.min(buf.len());
 				self.got.extend_from_slice(&buf[..n]);
@@ -139,7 +141,9 @@ impl Write for ScheduledSink {
 			SinkStep::Interrupted => Err(io::Error::new(io::ErrorKind::Interrupted, "injected interruption")),
 			SinkStep::Zero => Ok(0),
 			SinkStep::Error => Err(io::Error::new(io::ErrorKind::Other, "injected write error")),
-		}
+		};
+		self.log.push((false, buf.len(), outcome_code(&r)));
+		r
 	}
 	fn write_vectored(&mut self, bufs: &[IoSlice<'_>]) -> io::Result<usize> {
 		self.vectored_calls += 1;
@@ -147,7 +151,7 @@ impl Write for ScheduledSink {
 		if total == 0 {
 			return Ok(0);
 		}
-		match self.step() {
+		let r = match self.step() {
 			SinkStep::Accept(k) => {
 				let mut left = k.min(total);
 				let n = left;
@@ -169,11 +173,21 @@ impl Write for ScheduledSink {
 			SinkStep::Interrupted => Err(io::Error::new(io::ErrorKind::Interrupted, "injected interruption")),
 			SinkStep::Zero => Ok(0),
 			SinkStep::Error => Err(io::Error::new(io::ErrorKind::Other, "injected write error")),
-		}
+		};
+		self.log.push((true, total, outcome_code(&r)));
+		r
 	}
 	fn flush(&mut self) -> io::Result<()> {
 		self.flushes += 1;
 		Ok(())
+	}
+}
+
+fn outcome_code(r: &io::Result<usize>) -> i64 {
+	match r {
+		Ok(n) => *n as i64,
+		Err(e) if e.kind() == io::ErrorKind::Interrupted => -1,
+		Err(_) => -2,
 	}
 }
 
